@@ -16,10 +16,29 @@ TV_NOTE = ("Trusted: Lean 4.33 kernel and the theorem ESV.Beh.check_sound/valida
 
 CHECKS = {
     "C01": dict(
-        level="translation_validation", design="4/C01",
-        technique="translation validation: Lean 4 kernel-checked equivalence checker (check_sound) fed with the real compiler's output vs the Lean source semantics, on generated programs",
-        text="Every generated program is compiled by the real compiler and each routine is validated against the Lean small-step source semantics on the Lean SSB machine by a checker whose soundness (equal operation/test traces for every outcome of every test, halting preserved) is a kernel-checked theorem over all transition systems and relations. A verdict is per program. In addition, kernel-checked theorems about a statement-by-statement Lean model of the compiler (tied to the real compiler by the exact op-for-op correspondence of C03 on every run): backend_preserves (strip_last_label, LabelFinalizer and OpsLabelJumpToRemover preserve behaviour for ALL well-formed labelled code), frontend_wfl (the front end yields well-formed labelled code for ALL programs under the decidable guard FrontGuard), compile_backend_equiv, and compile_correct_F0 / _F1 / _F2 / _F3 / _F4 / _F5: for ALL programs of the fragments F0 (straight-line code, with-blocks, inline contexts), F1 (+ if/elseif/else with ||, not, lone-jump folding, empty blocks, any nesting), F2 (+ forever/while/while not/for with continue and break_loop) F3 (+ switch/case/default/break with fall-through and shared blocks) and F4 (+ labels, jump and call anywhere, also into other routines; every label defined once and every mentioned label defined) and F5 (+ macros in one file: any definition order, nested calls, labels private to each expansion, return; macro names and variables distinct, macro bodies mention only their own labels) the source semantics of every routine is behaviourally equivalent to the SSB machine on the model's compile result. About 95 % of the generated programs lie in F4/F5 (evidence: in_F4, in_F5). Imports, a folded single-exit case block into which control may fall, and a plain op named Return are covered by per-program validation only, hence the level translation_validation for the property as a whole.",
-        note=TV_NOTE + "The ANTLR parser and the compiler are not modelled."),
+        level="proof", design="4/C01 + 8.3",
+        technique="Lean 4 theorems about a hand-written, statement-by-statement executable model of the ExplorerScript compiler (ESV.Comp: compile handlers, counters, "
+                  "lone-jump folding, loop/case stacks, macros, strip_last_label, LabelFinalizer, OpsLabelJumpToRemover) and the small-step source semantics "
+                  "(ESV.Src) + exact model-vs-implementation comparison of compile results on every generated program + per-program translation validation of the "
+                  "REAL compiler's output by the kernel-checked equivalence checker (check_sound)",
+        text="PROVED, for ALL programs of a decidable fragment: compile_correct_F5 (with F0..F4 as sub-fragments) - for every program p with F5Prog p (all statement "
+             "forms: operations, assignments, with-blocks and inline contexts, if/elseif/else with ||, not, lone-jump folding and empty blocks, forever/while/while not/for "
+             "with continue and break_loop, switch/case/default/break with fall-through and shared blocks, labels with jump and call anywhere incl. into other routines, "
+             "macros in any definition order with nested calls, private labels and return; any nesting) whose compilation by the model succeeds, the source semantics of every "
+             "routine is behaviourally equivalent (same sequences of operations and condition tests for every outcome of every test, halting preserved) to the SSB "
+             "machine running the model's compile result. It is composed of backend_preserves (the three back-end passes preserve behaviour for ALL well-formed labelled "
+             "code; every conjunct of the hypothesis WFL shown necessary by a counterexample theorem), frontend_wfl (front-end output is well-formed for ALL programs under the "
+             "decidable FrontGuard), codegen_correct_F5 and falls_through_sound (the compiler's _falls_through analysis is sound for all labelled code). 99.2 % of the generated "
+             "programs lie inside the fragment (evidence: backend_wfl.in_F4 / in_F5 of backend_wfl.tosrc_agree); outside it are only: a folded single-exit case block behind a "
+             "block ending in if-else / switch / forever / a macro call, and the guards shown necessary by counterexample theorems that reproduce on the real compiler (a plain "
+             "op named Return, duplicate labels / macro variables, jump or control statements inside a with-block, undefined labels). PARTIAL in that sense: the full statement "
+             "of the property (every accepted program) is kept visible in lean/ESV/Props/C01Frontend.lean and DESIGN 8.3. The theorem is about the model; the model is tied to "
+             "/repo on every run by comparing its compile result with the real compiler's result op for op (raw offsets, jump parameters, routine infos, coroutine names) on "
+             "every generated program (backend_wfl.model_result_equals_real), and toSrc (model input -> semantics input) with the harness lowering (tosrc_agree). Independently "
+             "of the model, EVERY generated program - inside or outside the fragment - has the real compiler's output validated against the source semantics by the proven "
+             "checker (verdicts), which is what exhibits a failing input when the compiler is changed.",
+        note=TV_NOTE + "The ANTLR parser is not modelled (generated ASTs are printed, parsed by the repo's parser and must give the same AST). The compiler model is hand-written; "
+             "its faithfulness rests on the exact comparison above and on C03's."),
     "C03": dict(
         level="proof", design="4/C03",
         technique="Lean 4 theorems about a hand-written, statement-by-statement executable model of the ExplorerScript compiler after parsing "
@@ -266,15 +285,16 @@ CHECKS = {
              "(outside that the printed form itself is lossy: C04 known findings). The compile-time source map's own position-mark spans (ArgListCompileHandler uses the span of the "
              "whole argument list) are C08's subject, not this property's."),
     "C05": dict(
-        level="translation_validation", design="4/C05",
+        level="proof", design="4/C05 + 8.3",
         technique="behaviour: translation validation with the kernel-checked equivalence checker (check_sound) — real compiler output of generated programs with macros "
                   "(single file and multi-file layouts in temporary directories) vs the Lean source semantics of the program containing all macros (Stmt.macroCall = body inlined), "
                   "and vs the real compiler's output for the textually inlined macro-free program; ordering and import resolution: Lean 4 theorems about hand-written models of "
                   "MacroResolutionOrderVisitor (igraph vertex order = order of first mention, in_edges, _check_cycles, the ordering loop of repair 0989cb8 statement by statement), MacroVisitor's sort and _resolve_imported_file + exact "
                   "model-vs-implementation comparison (resolution order of every compiled file, resolved paths on the real temporary tree) + property oracles on the real outputs",
-        text="ONE category is claimed for the whole property: translation validation, because its first sentence (compiled routines behave like the program with every macro call "
-             "replaced by the body, parameters substituted, return leaving only the macro, labels private per expansion) is decided per generated program by a proven checker for the property as a whole (imports and the real ExplorerScriptMacro.build stay per program); "
-             "for single-file programs it is ALSO a kernel-checked theorem about the compiler model ESV.Comp (tied op for op to the real compiler by C03): compile_correct_F5 - for ALL "
+        text="All three sentences of the property are backed by kernel-checked theorems for ALL inputs about hand-written models that are compared exactly with the real code on every run (PARTIAL where a "
+             "decidable fragment / guard is stated). The first sentence (compiled routines behave like the program with every macro call "
+             "replaced by the body, parameters substituted, return leaving only the macro, labels private per expansion) is, in addition, decided per generated program by the proven checker on the REAL compiler's output (that is what exhibits a failing input when ExplorerScriptMacro.build is changed); "
+             "for single-file programs it is a kernel-checked theorem about the compiler model ESV.Comp (tied op for op to the real compiler by C03): compile_correct_F5 - for ALL "
              "programs of the decidable fragment F5Prog (all statement forms, macros in any definition order under any resolution order for which compileMacros succeeds, nested calls, "
              "labels private to each expansion, return; macro names and variables distinct, macro bodies mention only their own labels; 96.6 % of the generated single-file programs: "
              "evidence in_F5) the source semantics in which a macro call IS the inlined body is behaviourally equivalent to the SSB machine on the compile result; and for projects with imports "
